@@ -111,6 +111,15 @@ AddPassiveElem(s, funcs) ==
 SetStart(s, f) == [s EXCEPT !.start = f]
 
 \* deletion is well-formed only when nothing else refers to the entity; an import record goes with its entity
+\* A function that some body names through ref.func has to stay *declared* outside the code section (validation rule):
+\* exported, or named by an element segment or by a global initialiser.  An edit that removes the last declaration of
+\* such a function is not well formed.  rf = the functions named by ref.func in the bodies of the parsed module.
+Declared(s, f) ==
+  \/ \E e \in Ran(s.exports) : e.kind = "func" /\ e.target = f
+  \/ \E k \in DOMAIN s.elems : s.elems[k].live /\ \E q \in DOMAIN s.elems[k].items : <<"func", f>> \in ExprRef(s.elems[k].items[q])
+  \/ \E k \in DOMAIN s.globals : s.globals[k].live /\ <<"func", f>> \in ExprRef(s.globals[k].init)
+RefFuncOK(s, rf) == \A f \in rf : IsLive(s, "func", f) => Declared(s, f)
+
 CanDelete(s, sp, id) == IsLive(s, sp, id) /\ ~RefsExceptImport(s, sp, id)
 Delete(s, sp, id) ==
   [s EXCEPT ![Fld(sp)][id + 1] = DeadOf(sp),
